@@ -184,7 +184,7 @@ float f(int x) { return 2.0; }
 float f(uint x) { return 3.0; }
 struct S { float a; float f() { return a; } float g() { return a + 1.0; } };
 struct T { float a; float f() { return a; } float g() { return a + 1.0; } };
-float h(S s, T t) { float f_0 = s.f(); float f_1 = t.g(); float x = f_0; { float x = f_1; f_0 = x; } return f(f_0) + f(1) + f(1u) + s.g() + t.f(); }
+float h(S s, T t) { float f_0 = s.f(); float f_1 = t.g(); float x = f_0; { float x = f_1; f_0 = x; } return f(f_0) + f(1u) + s.g() + t.f(); }
 "#,
     );
     add(
